@@ -2,6 +2,7 @@
 package engines
 
 import (
+	_ "verif/harness/cachesim"
 	_ "verif/harness/mptsim"
 	_ "verif/harness/wmptsim"
 )
